@@ -144,11 +144,11 @@ func (rs *rawServer) next(d time.Duration) (netfx.Frame, bool) {
 }
 
 type c07senderCase struct {
-	W       int64    `json:"window"`
-	Sizes   []int64  `json:"message_sizes"`
+	W       int64     `json:"window"`
+	Sizes   []int64   `json:"message_sizes"`
 	Acks    [][]int64 `json:"scripted_window_updates_per_blocked_send"`
-	Ending  string   `json:"ending"`
-	History []string `json:"history"`
+	Ending  string    `json:"ending"`
+	History []string  `json:"history"`
 }
 
 // ---------- layer 2: implementation as sender ----------
